@@ -102,6 +102,9 @@ func (simpleEngine) Gen(prop string, seed uint64, tier string) *Spec {
 				}
 				op.Pat = pat
 				pat++
+				// every acknowledged request must survive a crash, whatever stability the
+				// client asked for
+				op.How = rng.Intn(3)
 			case 1:
 				op.K = "read"
 				op.Off, op.Cnt = off, cnt
@@ -132,6 +135,7 @@ type sIn struct {
 	Size    uint64
 	ReadAll bool
 	Pending bool
+	How     int // WRITE stable_how
 }
 
 type sOut struct {
@@ -291,7 +295,7 @@ func sStep(st *sState, in sIn, out sOut) []*sState {
 		if in.Pending {
 			return []*sState{st, nst}
 		}
-		if !ok || out.Count != in.Cnt || out.Commit != 2 {
+		if !ok || out.Count != in.Cnt || out.Commit < in.How {
 			return nil
 		}
 		return []*sState{nst}
@@ -370,7 +374,7 @@ func simpleCall(nfs *simple.Nfs, in sIn) sOut {
 	case "write":
 		d := make([]byte, len(in.Data))
 		copy(d, in.Data)
-		r := nfs.NFSPROC3_WRITE(nfstypes.WRITE3args{File: fh, Offset: nfstypes.Offset3(in.Off), Count: nfstypes.Count3(in.Cnt), Stable: nfstypes.FILE_SYNC, Data: d})
+		r := nfs.NFSPROC3_WRITE(nfstypes.WRITE3args{File: fh, Offset: nfstypes.Offset3(in.Off), Count: nfstypes.Count3(in.Cnt), Stable: nfstypes.Stable_how(in.How), Data: d})
 		out.Status = uint32(r.Status)
 		out.Count = uint64(r.Resok.Count)
 		out.Commit = int(r.Resok.Committed)
@@ -425,6 +429,7 @@ func (simpleEngine) Exec(spec *Spec) *Result {
 					case "write":
 						in.Data = patData(op.Pat, 0, op.Len)
 						in.Cnt = uint64(uint32(op.Cnt)) // count3 is 32 bits on the wire
+						in.How = op.How
 					case "read":
 						in.Cnt = uint64(uint32(op.Cnt))
 					case "setattr":
